@@ -65,10 +65,13 @@ class FactoryRun:
         body.__name__ = f"t{h}"
         return body
 
-    def spawn(self, h: int, via: str) -> None:
+    def spawn(self, h: int, via: str, cancel_now: bool = False) -> None:
         self.log("spawn", h)      # the handle exists from the moment of the call
         handle = self.factory.start_task_soon(self.make_body(h), f"t{h}")
         self.handles[h] = handle
+        if cancel_now:
+            handle.cancel()
+            self.log("cancelReq", h)
 
     async def spawn_async(self, h: int) -> None:
         self.log("spawn", h)
@@ -115,11 +118,11 @@ class FactoryRun:
                     async with Context() as inner:
                         inner.add_resource(TYPES[0](900 + h), f"inner{h}")
                         if via == "soon":
-                            self.spawn(h, via)
+                            self.spawn(h, via, step.get("cancelNow", False))
                         else:
                             await self.spawn_async(h)
                 elif via == "soon":
-                    self.spawn(h, via)
+                    self.spawn(h, via, step.get("cancelNow", False))
                 else:
                     await self.spawn_async(h)
             elif op == "observe":
